@@ -19,12 +19,18 @@ def corpus_files():
 
 
 def find_first_header(buf):
-    """offset of the first header (corpus SFX files carry stubs)"""
+    """offset of the first header (corpus SFX files carry stubs; after an SFX marker one decoy signature is skipped)"""
+    skip = 0
     for i in range(0, min(len(buf), 1 << 18)):
         if buf[i + 2:i + 3] == b"-" and buf[i + 6:i + 7] == b"-" and buf[i + 3:i + 5] in (b"lh", b"lz", b"pm"):
-            h = lzhfmt.parse_header(buf, i)
-            if h is not None:
-                return i
+            if skip:
+                skip -= 1
+            else:
+                h = lzhfmt.parse_header(buf, i)
+                if h is not None:
+                    return i
+        if buf[i:i + 7] == b"LHA-SFX" or buf[i:i + 12] == b"LhASFX V1.2,":
+            skip = 1
     return None
 
 
@@ -64,6 +70,31 @@ def t_ref_decoders():
     return (not bad and bool(res)), "%s methods=%s no-ref-decoder=%s %s" % (res[0] if res else "?", methods, skipped, bad[:3])
 
 
+def t_ref_headers():
+    """reference parser + normaliser reproduce every recorded header dump (test/output/**-hdr.txt)"""
+    exe = build.ensure_explorer("ref_hdrdump", "plain", lib=False)
+    out_root = os.path.join(REPO, "test", "output")
+    n = bad = 0
+    first_bad = []
+    for path in corpus_files():
+        rel = os.path.relpath(path, CORPUS)
+        dump = os.path.join(out_root, rel + "-hdr.txt")
+        if not os.path.exists(dump):
+            continue
+        buf = open(path, "rb").read()
+        off = find_first_header(buf)
+        if off is None:
+            off = 0
+        r = subprocess.run([exe, path, str(off), "london"], stdout=subprocess.PIPE)
+        want = open(dump, "rb").read()
+        n += 1
+        if r.stdout != want:
+            bad += 1
+            if len(first_bad) < 4:
+                first_bad.append(rel)
+    return bad == 0 and n > 100, "dumps=%d mismatching=%d %s" % (n, bad, first_bad)
+
+
 def main():
     rc = 0
     for name, fn in TESTS:
@@ -79,4 +110,4 @@ def main():
     return rc
 
 
-TESTS = [("ref-decoders-vs-corpus", t_ref_decoders)]
+TESTS = [("ref-decoders-vs-corpus", t_ref_decoders), ("ref-headers-vs-dumps", t_ref_headers)]
